@@ -1,19 +1,49 @@
 """Child process for C01's resource-bound monitor: one hostile expression per process, address space capped,
-faulthandler on. Prints one JSON line {status, wall_s, cpu_s, maxrss_kb, success, error}."""
+faulthandler on. Prints one JSON line {status, wall_s, cpu_s, maxrss_kb, success, error}.
+
+Options of the spec (all optional): `ctor_tau` = timeout the engine is CONSTRUCTED with (the timed call then runs after the public
+`timeout` attribute was assigned `tau`: the bound follows the current setting), `copy` in copy/deepcopy/pickle = the timed call runs on a
+duplicate of the engine made after the prelude, `probe` = list of [expression, pathway] pairs evaluated one after the other (used for the
+refusal probe in an interpreter started with -O); the process may be started with TZ set far from UTC."""
 import faulthandler
 import json
+import os
 import resource
 import sys
 import time
 
 
-def main():
-    spec = json.loads(sys.argv[1])
+def limit_memory(spec):
     faulthandler.enable()
     lim = int(spec.get("as_limit_gb", 2) * (1 << 30))
     resource.setrlimit(resource.RLIMIT_AS, (lim, lim))
+
+
+def run_probe(spec):
     from operon_ai.organelles.mitochondria import Mitochondria, MetabolicPathway
-    m = Mitochondria(timeout_seconds=spec["tau"], silent=True)
+    m = Mitochondria(timeout_seconds=spec.get("tau", 5.0), silent=True)
+    res = []
+    for expr, pw in spec["probe"]:
+        try:
+            if pw == "digest":
+                r = m.digest_glucose(expr)
+                res.append({"s": not r.startswith("Metabolic Failure"), "v": r[:60]})
+            else:
+                r = m.metabolize(expr, MetabolicPathway[pw] if pw else None)
+                res.append({"s": bool(r.success), "v": repr(r.atp.value)[:40] if r.success else (r.error or "")[:40],
+                            "p": (r.atp.pathway.name if r.success else None)})
+        except BaseException as e:  # noqa
+            res.append({"raised": "%s: %s" % (type(e).__name__, str(e)[:100])})
+        if m.get_ros_level() >= m.max_ros:
+            m.repair(10.0)
+    return {"status": "probed", "results": res, "optimized": sys.flags.optimize, "debug": __debug__}
+
+
+def run_spec(spec):
+    from operon_ai.organelles.mitochondria import Mitochondria, MetabolicPathway
+    if "probe" in spec:
+        return run_probe(spec)
+    m = Mitochondria(timeout_seconds=spec.get("ctor_tau", spec["tau"]), silent=True)
     pathway = MetabolicPathway[spec["pathway"]] if spec.get("pathway") else None
     # state carried across calls on ONE engine: earlier calls (rejected, failing, latching the ROS guard, ...) run first, untimed
     for pre in spec.get("prelude", []):
@@ -25,6 +55,12 @@ def main():
                              MetabolicPathway[pre["pathway"]] if isinstance(pre, dict) and pre.get("pathway") else None)
         except BaseException:  # noqa
             pass
+    if "ctor_tau" in spec:
+        m.timeout = spec["tau"]
+    if spec.get("copy"):
+        import copy
+        import pickle
+        m = {"copy": copy.copy, "deepcopy": copy.deepcopy, "pickle": lambda o: pickle.loads(pickle.dumps(o))}[spec["copy"]](m)
     t0, c0 = time.time(), time.process_time()
     out = {"status": "returned"}
     try:
@@ -41,7 +77,118 @@ def main():
     out["wall_s"] = time.time() - t0
     out["cpu_s"] = time.process_time() - c0
     out["maxrss_kb"] = resource.getrusage(resource.RUSAGE_SELF).ru_maxrss
-    print(json.dumps(out), flush=True)
+    out["optimized"] = sys.flags.optimize
+    return out
+
+
+def child_cpu(pid):
+    try:
+        with open("/proc/%d/stat" % pid) as f:
+            rest = f.read().rsplit(")", 1)[1].split()
+        return (int(rest[11]) + int(rest[12])) / float(os.sysconf("SC_CLK_TCK"))
+    except Exception:
+        return None
+
+
+def server():
+    """Fork server: the library is imported once, every spec then runs in its OWN forked process (own address-space cap, own resource
+    usage, own time zone). A spec is stopped when it has consumed bound + 5 s of CPU (never on wall time: the machine may be loaded) or
+    after 15 idle minutes. One JSON line per spec on stdout: {"id": ..., ...result}."""
+    data = json.load(sys.stdin)
+    pending = list(data["specs"])
+    par = int(data.get("parallel", 4))
+    import operon_ai.organelles.mitochondria  # noqa
+    running = {}
+    last_cpu_check = 0.0
+    stops = [0]
+    max_stops = int(data.get("max_stops", 12))
+
+    def finish(pid, status_word, extra=None):
+        spec, rfd, t0 = running.pop(pid)
+        chunks = []
+        while True:
+            b = os.read(rfd, 1 << 16)
+            if not b:
+                break
+            chunks.append(b)
+        os.close(rfd)
+        text = b"".join(chunks).decode("utf-8", "replace")
+        try:
+            out = json.loads(text)
+        except Exception:
+            out = {"status": "crash", "rc": status_word, "stderr": text[-300:]}
+        if extra:
+            out = extra
+            stops[0] += 1
+        out["id"] = spec["id"]
+        out.setdefault("wall_s", time.time() - t0)
+        sys.stdout.write(json.dumps(out) + "\n")
+        sys.stdout.flush()
+
+    while pending or running:
+        if stops[0] >= max_stops and pending:
+            # the run is refuted many times over already: the remaining specs are reported as skipped instead of burning CPU for each of them
+            for spec in pending:
+                sys.stdout.write(json.dumps({"id": spec["id"], "status": "skipped"}) + "\n")
+            sys.stdout.flush()
+            pending = []
+            continue
+        while pending and len(running) < par:
+            spec = pending.pop(0)
+            r, w = os.pipe()
+            try:
+                import fcntl
+                fcntl.fcntl(w, 1031, 1 << 20)      # F_SETPIPE_SZ: the whole result fits, the child never blocks on the write
+            except Exception:
+                pass
+            sys.stdout.flush()
+            pid = os.fork()
+            if pid == 0:
+                try:
+                    os.close(r)
+                    if spec.get("tz"):
+                        os.environ["TZ"] = spec["tz"]
+                        time.tzset()
+                    limit_memory(spec)
+                    try:
+                        out = run_spec(spec)
+                    except BaseException as e:  # noqa
+                        out = {"status": "crash", "rc": "exception in child", "stderr": "%s: %s" % (type(e).__name__, str(e)[:200])}
+                    os.write(w, json.dumps(out).encode("utf-8"))
+                finally:
+                    os._exit(0)
+            os.close(w)
+            running[pid] = (spec, r, time.time())
+        try:
+            pid, st = os.waitpid(-1, os.WNOHANG)
+        except ChildProcessError:
+            pid = 0
+        if pid and pid in running:
+            finish(pid, st)
+            continue
+        time.sleep(0.02)
+        now = time.time()
+        if now - last_cpu_check > 0.5:
+            last_cpu_check = now
+            for pid in list(running):
+                spec, rfd, t0 = running[pid]
+                cpu = child_cpu(pid)
+                why = "cpu" if (cpu is not None and cpu > spec["bound"] + 5.0) else ("idle" if now - t0 > 900 else None)
+                if why:
+                    try:
+                        os.kill(pid, 9)
+                        os.waitpid(pid, 0)
+                    except Exception:
+                        pass
+                    finish(pid, -9, {"status": "timeout", "wall_s": now - t0, "child_cpu_s": cpu, "stopped_because": why})
+
+
+def main():
+    if len(sys.argv) > 1 and sys.argv[1] == "--server":
+        return server()
+    spec = json.loads(sys.argv[1])
+    limit_memory(spec)
+    print(json.dumps(run_spec(spec)), flush=True)
 
 
 if __name__ == "__main__":
